@@ -1500,3 +1500,150 @@ func TestVerifC03(t *testing.T) {
 		t.Fatalf("address plan: %s", ep.multiaddr())
 	}
 }
+
+// ---- replay: re-execute the operations of a recorded case on the current tree ----------------
+
+type c03Reader struct {
+	t   []int64
+	p   int
+	bad bool
+}
+
+func (r *c03Reader) next() int64 {
+	if r.p >= len(r.t) {
+		r.bad = true
+		return 0
+	}
+	v := r.t[r.p]
+	r.p++
+	return v
+}
+
+func c03UnLim(x int64) int {
+	if x == -1 {
+		return math.MaxInt
+	}
+	return int(x)
+}
+
+func (r *c03Reader) limit() BaseLimit {
+	l := BaseLimit{}
+	m := r.next()
+	if m == -1 {
+		m = math.MaxInt64
+	}
+	l.Memory = m
+	l.Streams, l.StreamsInbound, l.StreamsOutbound = c03UnLim(r.next()), c03UnLim(r.next()), c03UnLim(r.next())
+	l.Conns, l.ConnsInbound, l.ConnsOutbound, l.FD = c03UnLim(r.next()), c03UnLim(r.next()), c03UnLim(r.next()), c03UnLim(r.next())
+	return l
+}
+
+func (r *c03Reader) prefix() c03Prefix {
+	p := c03Prefix{v6: r.next() != 0}
+	for i := 0; i < 4; i++ {
+		p.w[i] = uint32(r.next())
+	}
+	p.len = int(r.next())
+	return p
+}
+
+func c03Decode(t []int64) (*c03Cfg, int64, []c03Op, bool) {
+	r := &c03Reader{t: t}
+	if r.next() != 3 {
+		return nil, 0, nil, false
+	}
+	flags := r.next()
+	c := &c03Cfg{}
+	for i := range c.lims {
+		c.lims[i] = r.limit()
+	}
+	for n := r.next(); n > 0 && !r.bad; n-- {
+		o := c03Over{kind: int(r.next()), id: int(r.next())}
+		o.lim = r.limit()
+		c.over = append(c.over, o)
+	}
+	for n := r.next(); n > 0 && !r.bad; n-- {
+		a := c03Allow{p: r.prefix()}
+		a.peer = int(r.next())
+		c.allow = append(c.allow, a)
+	}
+	for n := r.next(); n > 0 && !r.bad; n-- {
+		c.sub4 = append(c.sub4, [2]int{int(r.next()), c03UnLim(r.next())})
+	}
+	for n := r.next(); n > 0 && !r.bad; n-- {
+		c.sub6 = append(c.sub6, [2]int{int(r.next()), c03UnLim(r.next())})
+	}
+	for n := r.next(); n > 0 && !r.bad; n-- {
+		p := c03PreLim{p: r.prefix()}
+		p.cap = c03UnLim(r.next())
+		c.pre4 = append(c.pre4, p)
+	}
+	for n := r.next(); n > 0 && !r.bad; n-- {
+		p := c03PreLim{p: r.prefix()}
+		p.cap = c03UnLim(r.next())
+		c.pre6 = append(c.pre6, p)
+	}
+	var ops []c03Op
+	for r.p < len(r.t) && !r.bad {
+		o := c03Op{code: int(r.next())}
+		switch o.code {
+		case 1:
+			o.i, o.inb, o.fd = int(r.next()), r.next() != 0, r.next() != 0
+			o.ep.hasIP, o.ep.v6 = r.next() != 0, r.next() != 0
+			for i := 0; i < 4; i++ {
+				o.ep.w[i] = uint32(r.next())
+			}
+		case 2, 4, 5:
+			o.i, o.q = int(r.next()), int(r.next())
+		case 3:
+			o.i, o.q, o.inb = int(r.next()), int(r.next()), r.next() != 0
+		case 6:
+			o.t = c03Sid{int(r.next()), int(r.next()), int(r.next())}
+			o.sz, o.prio = r.next(), int(r.next())
+		case 7:
+			o.t = c03Sid{int(r.next()), int(r.next()), int(r.next())}
+			o.sz = r.next()
+		case 8:
+			o.t = c03Sid{int(r.next()), int(r.next()), int(r.next())}
+			o.k = int(r.next())
+		case 9:
+			o.t = c03Sid{int(r.next()), int(r.next()), int(r.next())}
+		case 10:
+		default:
+			return nil, 0, nil, false
+		}
+		r.next() // class
+		r.next() // aflag
+		nd := r.next()
+		r.p += int(11 * nd)
+		ops = append(ops, o)
+	}
+	return c, flags, ops, !r.bad && r.p == len(r.t)
+}
+
+func TestVerifC03Replay(t *testing.T) {
+	out, err := verifh.Open()
+	if err != nil {
+		t.Skip(err)
+	}
+	defer out.Close()
+	toks := verifh.ReplayCase()
+	if len(toks) > 0 && toks[0] == 4 {
+		// a concurrent run is not replayable step by step: run fresh ones
+		rd := verifh.NewRand(verifh.Seed())
+		for i := 0; i < 10; i++ {
+			c03Concurrent(t, out, rd.Fork(), 8, 400)
+		}
+		return
+	}
+	cfg, flags, ops, ok := c03Decode(toks)
+	if !ok {
+		t.Fatalf("cannot decode the case")
+	}
+	r := c03NewRun(t, out, cfg, flags)
+	defer r.close()
+	for _, o := range ops {
+		r.do(o)
+	}
+	r.emit()
+}
